@@ -272,6 +272,8 @@ def main():
                 except Exception as e:  # truncated result
                     result = None
             vio_lines = [l for l in out.splitlines() if l.startswith("VIOLATION ")]
+            if replay and "REPLAY-NOT-MINE" in out:
+                continue
             if result is not None:
                 st_eval += result.get("evaluations", 0)
                 merged["evaluations"] += result.get("evaluations", 0)
